@@ -194,6 +194,26 @@ def fullStepUnpinsFirst (w : World) (r : StepResult) : Bool :=
     else true
   | _, _, _ => true
 
+/-- the pause of the step the status points at is satisfied, as `doCanaryPaused` judges it: the last step of a canary plan
+    that releases `100%` needs no approval; a pause with a duration is over once the last status update is older than it.
+    (A manual pause is ended by the user writing `StepReady`, which is not a reconcile.) -/
+def pauseSatisfied (ro : Rollout) (s : Sub) : Bool :=
+  match ro.steps[(s.curIdx - 1).toNat]? with
+  | some step =>
+    (ro.style = .canary && decide ((ro.steps.length : Int) = s.curIdx) && step.replicas == .pct 100) ||
+    (step.pause = .short && s.lastUpdate = .elapsed)
+  | none => false
+
+/-- **C02.i** — the controller itself moves a step from `StepPaused` to `StepReady` only when the step's pause is
+    satisfied (or the plan was edited, which re-evaluates the step). -/
+def readyNeedsPause (w : World) (r : StepResult) : Bool :=
+  match w.ro.sub, r.w.ro.sub with
+  | some s, some s' =>
+    if inRollingNow w.ro ∧ r.w.ro.reason = .inRolling ∧ s.state = .paused ∧ s'.state = .ready ∧ s'.curIdx = s.curIdx ∧
+       s.hash ≠ .differs then pauseSatisfied w.ro s
+    else true
+  | _, _ => true
+
 /-- **C04 / C02** — while the workload's status is not consistent with its spec (`generation ≠ observedGeneration`: the
     controller cannot tell which revision the pods run, the finder reports an empty `Workload`) a reconcile of a Rollout
     that is not being deleted only waits: nothing is written to the BatchRelease, the workload or the network, the
@@ -221,6 +241,7 @@ def stepOracles (w : World) (r : StepResult) : List (String × Bool) :=
    ("C04.full_step_unpins_first", fullStepUnpinsFirst w r),
    ("C02.no_self_jump", noSelfJump w r),
    ("C10.reset_routes_first", resetRoutesFirst w r),
+   ("C02.ready_needs_pause", readyNeedsPause w r),
    ("C04.inconsistent_waits", inconsistentWaits w r),
    ("C05.inconsistent_waits", inconsistentWaits w r),
    ("C02.inconsistent_waits", inconsistentWaits w r)]
